@@ -179,7 +179,7 @@ def gen_cases(ctx, rnd):
         for v in vals:
             cases.append(dict(d=d, v=v))
     # random nestings (depth <= 3)
-    n_cfg, n_val = (50, 24) if quick else (550, 40)
+    n_cfg, n_val = (50, 24) if quick else (800, 45)
     for _ in range(n_cfg):
         d = pv.gen_desc(rnd, 3)
         if d[0] not in ("DTuple", "DCompound"):
